@@ -50,6 +50,16 @@ def gen_specs(rng):
             sp["front_required"] = rng.random() < 0.5
             sp["back_required"] = rng.random() < 0.5
         specs.append(sp)
+    if rng.random() < 0.2:
+        # one anchored 5' and one anchored 3' adapter of equal length in a random order (plus maybe a regular one):
+        # on reads carrying both, score and errors tie and the adapter given first must win
+        L = rng.randint(5, 9)
+        pair = [dict(type="suffix", seq=rnd_seq(rng, L, "ACGT"), name="s3", max_errors=0.1, min_overlap=3, indels=rng.random() < 0.5),
+                dict(type="prefix", seq=rnd_seq(rng, L, "ACGT"), name="p5", max_errors=0.1, min_overlap=3, indels=rng.random() < 0.5)]
+        rng.shuffle(pair)
+        specs = pair + ([dict(type="back", seq=rnd_seq(rng, L, "ACGT"), name="b3", max_errors=0.1, min_overlap=3, indels=True)] if rng.random() < 0.4 else [])
+        rng.shuffle(specs)
+        return specs
     if rng.random() < 0.25:
         # exact duplicate sequence under another name: ties on score and errors -> first given wins
         d = dict(rng.choice(specs))
@@ -96,6 +106,10 @@ def gen_read(rng, specs):
             a = mutate(rng, a, 1, "ACGT", True)
         pos = rng.choice([0, len(s), rng.randint(0, len(s))])
         s = s[:pos] + a + s[pos:]
+    pre = [sp for sp in specs if sp["type"] == "prefix"]
+    suf = [sp for sp in specs if sp["type"] == "suffix"]
+    if pre and suf and rng.random() < 0.5:
+        s = pre[0]["seq"] + rnd_seq(rng, rng.randint(0, 12), "ACGT") + suf[0]["seq"]
     if rng.random() < 0.3:
         # full linked construct
         for sp in specs:
@@ -215,8 +229,14 @@ def check_case(ctx, specs, opts, read, adapters=None):
             lm = check_linked(ctx, specs, sp, ad, read, case)
             if lm is not None:
                 nontrivial = True
-    # (b) rounds and actions
-    cutter = AdapterCutter(adapters, times=times, action=None if action == "none" else action, index=False)
+    # (b) rounds and actions. Default mode (index allowed) is used when at most one anchored 5' and one anchored 3'
+    # adapter could be indexed, i.e. when no index is involved although indexing is switched on.
+    n_pre = sum(1 for a in adapters if A.AdapterIndex.is_acceptable(a, prefix=True)) if all(not isinstance(a, A.LinkedAdapter) for a in adapters) else 9
+    n_suf = sum(1 for a in adapters if not isinstance(a, A.LinkedAdapter) and A.AdapterIndex.is_acceptable(a, prefix=False))
+    use_default_mode = n_pre <= 1 and n_suf <= 1 and all(not isinstance(a, A.LinkedAdapter) for a in adapters)
+    if use_default_mode:
+        ctx.count("default_mode_without_index")
+    cutter = AdapterCutter(adapters, times=times, action=None if action == "none" else action, index=use_default_mode)
     q = "".join(chr(33 + (i * 7) % 40) for i in range(len(read)))
     rec = SequenceRecord("r1", read, q)
     # reference rounds
@@ -346,9 +366,16 @@ def cli_case(ctx, k):
     os.makedirs(d, exist_ok=True)
     try:
         adapters = build(specs)
+        import cutadapt.adapters as A
+        plain = all(sp["type"] != "linked" for sp in specs)
+        n_pre = sum(1 for a in adapters if plain and A.AdapterIndex.is_acceptable(a, prefix=True))
+        n_suf = sum(1 for a in adapters if plain and A.AdapterIndex.is_acceptable(a, prefix=False))
+        no_index = [] if (plain and n_pre <= 1 and n_suf <= 1) else ["--no-index"]
+        if not no_index:
+            ctx.count("cli_default_mode_without_index")
         inputs = climon.write_inputs(d, recs)
         adargs = [x for sp in specs for x in render_spec(rng, sp)]
-        argv = adargs + ["-n", str(times), "-e", "0.1", "-O", "3", "--no-index", "--rename", "{id} {adapter_name}", "-o", "out.fq"] + inputs
+        argv = adargs + ["-n", str(times), "-e", "0.1", "-O", "3"] + no_index + ["--rename", "{id} {adapter_name}", "-o", "out.fq"] + inputs
         run = climon.run(d, argv, trace=False)
         case = climon.case_record(argv, d, inputs)
         case["cli_k"] = k
